@@ -33,7 +33,8 @@ RULE = ("Generated PROTOCOLINFO answers (every subset and order of NULL/HASHEDPA
         "COOKIEFILE present or not, path escaped as Tor does incl. space, quote, backslash, tab, literal backslash-n "
         "and non-ASCII bytes) x cookie-file condition (valid 32 B, 0/31/33/64 B, absent, a directory) x password "
         "provider (none, value, empty, raises, Deferred, coroutine, failing Deferred) x server behaviour at each step "
-        "(correct / wrong / truncated / lower-case / garbled AUTHCHALLENGE reply, 5xx, hang-up; AUTHENTICATE verified "
+        "(correct / wrong / truncated / lower-case / garbled AUTHCHALLENGE reply, 5xx, hang-up - also while a deferred "
+        "password provider is still pending, the provider answering afterwards; AUTHENTICATE verified "
         "against independently recomputed HMACs; 5xx or hang-up at each bootstrap query) x segmentation. Oracle: "
         "implications of the statement over the ordered list of lines written and post_bootstrap firings. "
         "Non-trivial = an AUTHCHALLENGE or AUTHENTICATE was written with >=2 methods advertised, or a fault was "
@@ -70,9 +71,9 @@ HEX64 = st.binary(min_size=32, max_size=32).map(lambda b: b.hex())
 
 def cases():
     return st.builds(
-        lambda methods, cf, cookie, snonce, pw, ch, auth, boot, chunk: {
+        lambda methods, cf, cookie, snonce, pw, ch, auth, boot, chunk, lw: {
             "methods": methods, "cookiefile": cf, "cookie": cookie, "snonce": snonce, "password": pw,
-            "challenge": ch, "auth": auth, "boot": boot, "chunk": chunk},
+            "challenge": ch, "auth": auth, "boot": boot, "chunk": chunk, "lose_waiting": lw},
         st.lists(st.sampled_from(ALL_METHODS), min_size=1, max_size=5, unique=True),
         st.one_of(st.none(), *[st.builds(lambda d, c: {"dir": d, "content": c},
                                          st.sampled_from(DIR_KINDS),
@@ -82,7 +83,8 @@ def cases():
         st.sampled_from(CHALLENGES + ["correct", "correct", "correct"]),
         st.sampled_from(["check", "check", "check", "5xx", "hangup"]),
         st.one_of(st.none(), st.none(), st.tuples(st.integers(0, 3), st.sampled_from(["5xx", "hangup"])).map(list)),
-        st.one_of(st.none(), st.integers(1, 40)))
+        st.one_of(st.none(), st.integers(1, 40)),
+        st.booleans())
 
 
 def product_cases():
@@ -310,6 +312,13 @@ def drive(case):
 
     pipe.connect()
     settle()
+    lost_waiting = False
+    if case.get("lose_waiting") and provider is not None and provider.pending is not None and \
+            not provider.pending.called and not pipe.lost:
+        # Tor hangs up while the client is still waiting for the password provider (no command is outstanding);
+        # the provider answers afterwards
+        lost_waiting = True
+        pipe.lose()
     if provider is not None:
         provider.finish()
         settle()
@@ -393,8 +402,11 @@ def drive(case):
             if calls != 1:
                 res.bad("password-not-consulted", "methods %r provider calls %d" % (methods, calls))
             if case["password"] in ("str", "deferred", "deferred-late", "coroutine") and \
-                    auth_tokens != [PW.encode().hex()]:
+                    auth_tokens != [PW.encode().hex()] and not lost_waiting:
                 res.bad("password-not-sent", repr(lines))
+            if lost_waiting and auths:
+                res.bad("write-after-loss", "AUTHENTICATE written although the connection was lost while the password "
+                        "provider was pending: %r" % (lines,))
             if case["password"] in ("empty", "raises", "deferred-fail") and auths:
                 res.bad("auth-sent-without-password", repr(lines))
         elif "NULL" in methods:
@@ -420,7 +432,7 @@ def drive(case):
     if boot.fired != 1:
         res.bad("ready-fired-%d-times" % boot.fired, "lines %r lost=%r" % (lines, pipe.lost))
     else:
-        boot_ok = tor.accepted_at is not None and not tor.hangup and (
+        boot_ok = tor.accepted_at is not None and not tor.hangup and not lost_waiting and (
             case["boot"] is None or (case["boot"][0] == 0 and case["boot"][1] == "5xx") or case["boot"][0] > 3)
         if boot.succeeded and not boot_ok:
             res.bad("ready-succeeded-wrongly", "lines %r accepted_at=%r boot fault %r" % (lines, tor.accepted_at, case["boot"]))
@@ -437,6 +449,8 @@ def drive(case):
         res.label("challenge-" + case["challenge"])
     if tor.faults:
         res.label("fault-injected")
+    if lost_waiting:
+        res.label("connection-lost-while-the-password-provider-is-pending")
     if boot.succeeded:
         res.label("ready-ok")
     return res
